@@ -328,6 +328,8 @@ def explore(chk, h, tier, only=None):
             # stable key: what went wrong, where the failed allocation was requested (function < caller), and for a
             # crash the function it crashed in; the scenario and k are in the replay
             key = "%s:site:%s" % (kind, site)
+            if b"include " in s[1]:
+                key += ":in-include"      # a failure while an included file is being parsed is a context of its own
             if kind == "crash":
                 key += ":at:" + (detail.split(" @ ")[-1].split(">")[0] or "?")
             chk.violation(key, "C16 scenario %s, allocation #%d of %d fails%s (in %s): %s: %s %s" % (
